@@ -12,12 +12,25 @@
      - no other element's children change (the `edit` frame), lifted to whole histories of such
        calls by fold_left (C09_refines),
      - the encoding is a function of the visible part, hence of the abstraction (C09_encoding).
-   Partial: the lifting to whole operations with lazily created targets is left to the
-   correspondence run; F19 (a value assigned to VARIES_n of a bare varies field is not encoded) is
+     - the index-addressed WHOLE operations (Proofs/HeapIndexed.v):
+         children.remove_by_name(name, i)  removes repetition i of the name - a Python index, i < 0
+           counts from the end, i.e. repetition len+i - and nothing else (C09_remove_by_name_refines,
+           C09_remove_others_in_order);
+         children.set(name, text, i), which x.<name>[i] = text is once the proxy is resolved
+           (C09_set_index_is_set), replaces repetition i (len+i for i < 0) in place by a freshly parsed
+           child, or appends it when there is no such repetition (C09_set_index_refines);
+         both lifted to sequences of such operations against the plain list semantics `arun`
+         (C09_refines_indexed), with a computed run as witness (C09_refines_indexed_instance).
+       Side conditions, each stated: the addressed element is allocated and not itself waiting under
+       a traversal parent (otherwise the final promotion also lists it under that parent), and
+       `settled`: none of its listed children names it as traversal parent too (the condition of
+       C09_refines_remove / _replace).
+   Partial: right-hand sides other than text and targets reached through lazily created chains are
+   left to the correspondence run (C11_write_materialises covers the chains); F19 (a value assigned to VARIES_n of a bare varies field is not encoded) is
    a defect of the value's sub-structure, recorded by C09_value_lost_refuted. *)
 From Coq Require Import List Bool Arith Lia ZArith NArith Init.Byte.
 From HL7 Require Import Lib.Str Model.Ec Model.Result Model.Ref Model.Tree Model.Leaf Model.Heap Model.HeapSpec Gen.Params.
-From HL7 Require Import Proofs.HeapFacts Proofs.HeapInv Proofs.HeapAtomic Proofs.HeapRefine.
+From HL7 Require Import Proofs.HeapFacts Proofs.HeapInv Proofs.HeapStep Proofs.HeapAtomic Proofs.HeapRefine Proofs.HeapIndexed.
 From HL7 Require Gen.Tables_v2_5.
 Import ListNotations.
 Open Scope bs_scope.
@@ -70,6 +83,61 @@ Theorem C09_refines : forall (t : tables) (s s' : store) (ops : list mop),
   forall q, abs s' q = fold_left (spec_mstep (fun c => n_name (getn s c))) ops (abs s) q.
 Proof. intros t s s' ops H. exact (refines_fold t s ops s' H). Qed.
 Print Assumptions C09_refines.
+
+(* ---------- the index-addressed whole operations ---------- *)
+
+(* children.remove_by_name(name, i): repetition i (Python index) of the key the name resolves to is
+   removed from the list; every other element, and every name, is as before *)
+Theorem C09_remove_by_name_refines :
+  forall (t : tables) (x : nat) (name : str) (i : Z) (s s' : store),
+    Inv s -> settled s x ->
+    remove_by_name t x name i s = (s', Ok tt) ->
+    exists cname cref,
+      fcr t (getn s x) (upper name) = Ok (cname, cref) /\
+      abs s' x = spec_remove_at (abs s x) (Some (if streqb cname name then name else cname)) i /\
+      (forall q, q <> x -> abs s' q = abs s q) /\ (forall c, n_name (getn s' c) = n_name (getn s c)).
+Proof. exact remove_by_name_refines. Qed.
+Print Assumptions C09_remove_by_name_refines.
+
+(* ... and the others keep their order *)
+Theorem C09_remove_others_in_order : forall (a : absl) (c : nat), others (spec_remove a c) c = others a c.
+Proof. exact others_remove. Qed.
+Print Assumptions C09_remove_others_in_order.
+
+(* children.set(name, text, i): repetition i (Python index) of the key is replaced in place by a fresh
+   child carrying that key - or the child is appended when there is no such repetition; the other
+   existing elements keep their children, every existing element its name *)
+Theorem C09_set_index_refines :
+  forall (t : tables) (e : ec) (le : level -> option str -> str -> result str)
+         (p : nat) (name txt : str) (i : Z) (s s' : store),
+    Inv s -> p < s_next s -> n_tparent (getn s p) = None -> settled s p ->
+    set_child t e le false p name (VText txt) i s = (s', Ok tt) ->
+    exists cname cref child,
+      fcr t (getn s p) (upper name) = Ok (cname, cref) /\ s_next s <= child /\
+      abs s' p = spec_assign_at (abs s p) (Some cname) i child /\
+      (forall q, q < s_next s -> q <> p -> abs s' q = abs s q) /\
+      (forall c, c < s_next s -> n_name (getn s' c) = n_name (getn s c)) /\
+      s_next s <= s_next s' /\ Inv s' /\ n_tparent (getn s' p) = None.
+Proof. exact set_child_refines. Qed.
+Print Assumptions C09_set_index_refines.
+
+(* x.<name>[i] = v is that call once the proxy (x, NAME) is resolved *)
+Theorem C09_set_index_is_set :
+  forall (t : tables) (e : ec) (le : level -> option str -> str -> result str)
+         (x : nat) (name : str) (i : Z) (v : value) (s : store) (pn : str),
+    proxy_name_plain t (getn s x) name = Ok pn ->
+    set_index t e le false x name i v s = set_child t e le false x pn v i s.
+Proof. exact set_index_direct. Qed.
+Print Assumptions C09_set_index_is_set.
+
+(* sequences of such operations (unbounded): the children of every element follow the plain list
+   semantics, and the invariant is kept *)
+Theorem C09_refines_indexed :
+  forall (t : tables) (e : ec) (le : level -> option str -> str -> result str) (s : store) (ops : list iop) (s' : store),
+    Inv s -> good_irun t e le s ops s' ->
+    arun (s_next s) (abs s) ops (s_next s') (abs s') /\ Inv s'.
+Proof. exact refines_indexed. Qed.
+Print Assumptions C09_refines_indexed.
 
 (* replacing one child never changes the order of the others, and the replacement sits where the
    replaced child sat *)
@@ -127,3 +195,28 @@ Theorem C09_value_lost_refuted :
   length (n_list (getn (r_store r) 0)) = 1 /\ to_er7 t25 e25 (r_store r) 0 false = [].
 Proof. vm_compute. split; reflexivity. Qed.
 Print Assumptions C09_value_lost_refuted.
+
+(* a run that meets every side condition: A, B, C assigned to pid_3[0..2]; pid_3[-2] = X replaces B in
+   place; remove_by_name('pid_3', -1) removes C; pid_3[7] = Y appends *)
+Definition s_pid : store := r_store (run_hist t25 e25 le25 false init_rstate [ONewSeg TOLERANT "PID"]).
+Definition pid3_run : list iop :=
+  let k := Some (unbs "PID_3") in
+  [IAssignAt 0 (unbs "pid_3") k 0%Z (unbs "A"); IAssignAt 0 (unbs "pid_3") k 1%Z (unbs "B");
+   IAssignAt 0 (unbs "pid_3") k 2%Z (unbs "C"); IAssignAt 0 (unbs "pid_3") k (-2)%Z (unbs "X");
+   IRemoveAt 0 (unbs "pid_3") k (-1)%Z; IAssignAt 0 (unbs "pid_3") k 7%Z (unbs "Y")].
+
+Example C09_refines_indexed_instance :
+  let s' := irun_end t25 e25 le25 s_pid pid3_run in
+  Inv s_pid /\ good_irun t25 e25 le25 s_pid pid3_run s' /\
+  arun (s_next s_pid) (abs s_pid) pid3_run (s_next s') (abs s') /\
+  to_er7 t25 e25 s' 0 false = unbs "PID|||A~X~Y" /\ length (abs s' 0) = 3.
+Proof.
+  assert (I : Inv s_pid).
+  { assert (H : RInv (run_hist t25 e25 le25 false init_rstate [ONewSeg TOLERANT "PID"])).
+    { apply hist_inv; [exact RInv_init|]. vm_compute. repeat split; auto. }
+    exact (proj1 H). }
+  assert (G : good_irun t25 e25 le25 s_pid pid3_run (irun_end t25 e25 le25 s_pid pid3_run)).
+  { apply good_irun_b. vm_compute. reflexivity. }
+  cbv zeta. split; [exact I|]. split; [exact G|]. split; [exact (proj1 (C09_refines_indexed _ _ _ _ _ _ I G))|].
+  vm_compute. split; reflexivity.
+Qed.
